@@ -85,8 +85,76 @@ class C05(DevProp):
         run_.coverage["messages_checked"] = sum(len(st["midi"]) for r in results for st in r["steps"]) + sum(len(r["cleanup"]) for r in results)
 
 
+class C05A(DevProp):
+    """the same monitor on histories with axis events (float layer)"""
+    pid = "C05"
+    imports = "Model.AnalogF Model.AnalogSpec Run.AnalogRun"
+    case_type = "acase"
+    fail_term = "c05a_failures k"
+    mis_term = "(@None nat)"
+    nontrivial_term = None
+    monitor_name = C05.monitor_name
+    correspondence_name = "C05 view (per message: well-formed or not), axis events"
+    rule = C05.rule
+
+    def emit(self, case, res):
+        import agen
+        return agen.emit_acase(case, res)
+
+    def nontrivial_py(self, case, res):
+        return any(st["midi"] for st in res["steps"])
+
+    def evaluate(self, cases, results, tag):
+        import math, devrun
+        evals = [("FAIL", "enum_fail (fun k => %s) 0 cases" % self.fail_term),
+                 ("MIS", "enum_some (fun k => %s) 0 cases" % self.mis_term),
+                 ("NT", "enum_true (fun k => false) 0 cases")]
+        n = max(3, min(20, math.ceil(len(cases) / 8)))
+        return devrun.eval_shards(cases, results, evals, imports=self.imports, shard=n, emit=self.emit, case_type=self.case_type, tag=tag + "a")
+
+    def gen(self, rng, tier):
+        import agen, struct
+        from agen import bits
+        cases = []
+        ranges = [(-128, 127), (-127, 127), (0, 255), (-32768, 32767), (0, 65535), (-1, 1), (0, 1023), (-512, 511), (-100, 3)]
+        weird = [0.0, 0.05, 0.1, 0.5, 0.99, 1.0, 2.0, -0.5, float("inf"), float("-inf"), float("nan")]
+        n = 70 if tier == "quick" else 1500
+        for i in range(n):
+            mn, mx = ranges[i % len(ranges)]
+            dz = weird[(i // len(ranges)) % len(weird)] if i % 3 == 0 else rng.choice([0.0, 0.1, 0.25])
+            flip = rng.random() < 0.4
+            dzc = (mn == 0) and rng.random() < 0.5
+            analogs = [agen.analog(agen.ABS_X, "cc", cc=rng.choice([0, 7, 119]), ccneg=rng.choice([1, 118]), off=rng.choice([0, 15]), offneg=rng.choice([0, 15]),
+                                   flip=flip, bidi=True, dzc=dzc),
+                       agen.analog(agen.ABS_Y, "cc", cc=rng.choice([2, 64]), off=rng.choice([0, 9]), flip=flip, dzc=dzc),
+                       agen.analog(agen.ABS_Z, "pitch_bend", off=rng.choice([0, 15]), flip=not flip, dzc=dzc),
+                       agen.analog(agen.ABS_RX, "key", note=rng.choice([0, 127, 60]), noteneg=rng.choice([0, 127]), off=15, offneg=1, bidi=True, flip=flip, dzc=dzc)]
+            absl = [{"code": c, "min": mn, "max": mx} for c in (agen.ABS_X, agen.ABS_Y, agen.ABS_Z, agen.ABS_RX)]
+            cfg = agen.base_cfg(analogs, defdz=[{"sub": "", "bits": str(bits(dz))}], actions=[{"code": 59, "action": "octave_up"}, {"code": 63, "action": "channel_up"}],
+                                channel=rng.choice([1, 16]), velocity=rng.choice([1, 127]))
+            vals = sorted({mn, mn + 1, mx, mx - 1, 0 if mn <= 0 <= mx else mn, (mn + mx) // 2, (mn + mx) // 2 + 1} | {rng.randint(mn, mx) for _ in range(6)})
+            ev = []
+            for v in vals + vals[::-1]:
+                for code in (agen.ABS_X, agen.ABS_Y, agen.ABS_Z, agen.ABS_RX):
+                    ev.append({"t": "a", "sub": "", "code": code, "val": v})
+                if rng.random() < 0.2:
+                    ev += tap(63)
+            cases.append({"cfg": cfg, "abs": absl, "events": ev, "tag": "axes[%d,%d]" % (mn, mx)})
+        return cases
+
+
 def run(run_):
     C05().run(run_)
+    if not run_.violations:
+        cov1 = dict(run_.coverage)
+        C05A().run(run_)
+        cov2 = run_.coverage
+        for k_ in ("evaluations", "distinct_nontrivial", "monitor_failures", "view_mismatches", "crashes"):
+            cov2[k_] = cov1.get(k_, 0) + cov2.get(k_, 0)
+        cov2["generator_distribution"] = {"key_histories": cov1.get("generator_distribution"), "axis_histories": cov2.get("generator_distribution")}
+        cov2["configurations_rejected_by_parser"] = cov1.get("configurations_rejected_by_parser")
+        cov2["messages_checked_key_histories"] = cov1.get("messages_checked")
+        cov2["correspondence_obligations"] = 4
 
 
 def replay(run_, data):
